@@ -218,7 +218,7 @@ struct LcModel {
     o["checks_failed"] = failed;
     return o;
   }
-  unsigned nobs_ = 0;
+  static inline unsigned nobs_ = 0;   // process-wide: a fresh model object is built for every behaviour
   static int g_slots;
 };
 template <class O> int LcModel<O>::g_slots = 2;
